@@ -255,3 +255,23 @@ else:
     # under else 3
     v()
 ''')
+
+# e9: inside f-strings - replacement-field expressions, containers in them, nested f-strings, conversions, format specs,
+# self-documenting fields
+EXTRA.append('''\
+name = 'w'
+msg = f"hello {name}!"
+calc = f"{a + b} and {c * (d - e)}"
+items = f"{[x, y, z]} {(p, q)} {{'k': v}} { {k: v} }"
+conv = f"{obj!r} {obj!s:>10} {val:{width}.{prec}f}"
+nest = f"{f'{inner}' + other} {'-'.join(f'{i}' for i in seq)}"
+debug = f"{x = } {x+y=} {obj.attr = !r} {value = :>8}"
+call = f"{func(a, b=1)} {d['key']} {obj.m(arg).n}"
+cond = f"{a if b else c} {(lambda: z)()} {not flag}"
+multi = f"""{first}
+{second + third}
+{[u,
+  v]}"""
+def fmt(rows):
+    return f"{len(rows)} rows: {', '.join(str(r) for r in rows)}" + f"{rows[0]:{w}}"
+''')
